@@ -51,7 +51,18 @@ func init() {
 	regExplore("C22", []WorldRun{wrCoin, wrPool}, one(monitors.Registry{}))
 	regExplore("C27", txWorlds(), one(monitors.Fees{}))
 	regExplore("C04", []WorldRun{wrPayReplay}, one(monitors.OnceInOrder{}))
-	regExplore("C07", txWorlds(), one(monitors.NoCrash{}))
+	// C07: the transaction worlds, the block-environment worlds (evidence, absences, block
+	// times, period boundaries), then the byte-edit neighbourhoods
+	c07 := append(txWorlds(),
+		WorldRun{World: "valbyz", Quick: b(0, 0, 3), Thorough: b(2, 1, 4)},
+		WorldRun{World: "val", Quick: b(1, 1, 2), Thorough: b(1, 1, 3)},
+		WorldRun{World: "stakepending", Quick: b(1, 1, 2), Thorough: b(2, 1, 4)},
+		WorldRun{World: "stakemany", Quick: b(0, 0, 3), Thorough: b(1, 1, 3)},
+		WorldRun{World: "mint", Quick: b(1, 1, 2), Thorough: b(1, 1, 3)},
+		WorldRun{World: "mint-nopool", Quick: b(1, 1, 2), Thorough: b(1, 1, 3)},
+		WorldRun{World: "bookdisk", Quick: b(2, 2, 1), Thorough: b(3, 3, 1)},
+	)
+	regExplore("C07", c07, one(monitors.NoCrash{}), RunC07Bytes)
 	regExplore("C21", []WorldRun{wrPay}, one(monitors.Checks{}))
 	regExplore("C26", []WorldRun{wrPayReplay, {World: "pool", Quick: b(2, 2, 1), Thorough: b(2, 2, 2), OneEnv: true, Prepare: addReplayItems}}, one(monitors.ChargedOnce{}))
 	c06 := txWorlds()
